@@ -114,6 +114,20 @@ func hostilePrefix(t *Tape, w []byte, spans []Span) ([]byte, string, bool) {
 		v, what = maxv-uint64(t.Intn(16)), "near-max"
 	}
 	putN(out[s.Off:], s.Len, s.LE, v)
+	dup := ""
+	if t.Intn(3) == 0 {
+		// the same claim written into a plain numeric field of the same width in front of the
+		// prefix as well (protocols that carry a length twice: a check that compares the two
+		// copies with each other is satisfied by a consistent lie)
+		for i := len(spans) - 1; i >= 0; i-- {
+			n := spans[i]
+			if n.Kind == "num" && n.Len == s.Len && n.Off+n.Len <= s.Off && s.Off-n.Off <= 64 {
+				putN(out[n.Off:], n.Len, n.LE, v)
+				dup = " (also written into " + describeSpan(n) + ")"
+				break
+			}
+		}
+	}
 	// optionally cut the tail so that only a handful of bytes follow the hostile prefix
 	cut := false
 	if t.Intn(3) > 0 {
@@ -123,7 +137,7 @@ func hostilePrefix(t *Tape, w []byte, spans []Span) ([]byte, string, bool) {
 			cut = true
 		}
 	}
-	return out, fmt.Sprintf("hostile %s=%s(%#x) cut=%v", describeSpan(s), what, v, cut), true
+	return out, fmt.Sprintf("hostile %s=%s(%#x)%s cut=%v", describeSpan(s), what, v, dup, cut), true
 }
 
 // foreignPeer rewrites field contents the way a peer that is not this library might have
